@@ -81,3 +81,5 @@ Theorem c04_src_terrapin_rule : forall ca bs k dh rn d c n e0,
     (c = "enc" /\ src_is_cbc_ciphers n = true /\ In n (src_ciphers ca k) /\ exists m, In m (src_macs ca k) /\ src_is_etm_macs m = true) \/
     (c = "mac" /\ src_is_etm_macs n = true /\ In n (src_macs ca k) /\ exists x, In x (src_ciphers ca k) /\ src_is_cbc_ciphers x = true))).
 Proof. exact src_terrapin_rule. Qed.
+Theorem c04_tie_extract_ok_terrapin_texts : extract_ok_terrapin_texts = true.
+Proof. exact tie_extract_ok_terrapin_texts. Qed.
